@@ -5,31 +5,48 @@
 (* after the call, so the search is linear in the trace length.              *)
 EXTENDS Session, IOUtils
 
-VARIABLE l
+VARIABLES l,      \* next event to consume
+          pend    \* concurrent Decrypt calls that were invoked and have not returned: [id, e, dir, ctr, res]
 Trace == ndJsonDeserialize(IOEnv.TRACE_FILE)
 ev == Trace[l]
 
-TraceInit == Init /\ l = 1 /\ TLCSet(1, 1)
+TraceInit == Init /\ l = 1 /\ pend = {} /\ TLCSet(1, 1)
 
 Consume(name) == l <= Len(Trace) /\ ev.ev = name /\ l' = l + 1
 
 StateMatches == send' = ev.st.send /\ recv' = ev.st.recv
 
-TraceEncrypt == Consume("Encrypt") /\ Encrypt(ev.e)
+TraceEncrypt == Consume("Encrypt") /\ UNCHANGED pend /\ Encrypt(ev.e)
                 /\ last'.dir = ev.dir /\ last'.ctr = ev.ctr /\ StateMatches
 \* concurrent senders: only the nonce was observed
-TraceSeal    == Consume("Seal") /\ Encrypt(ev.e) /\ last'.dir = ev.dir /\ last'.ctr = ev.ctr
-TraceDeliver == Consume("Deliver") /\ Deliver(ev.e, [dir |-> ev.dir, ctr |-> ev.ctr])
+TraceSeal    == Consume("Seal") /\ UNCHANGED pend /\ Encrypt(ev.e) /\ last'.dir = ev.dir /\ last'.ctr = ev.ctr
+TraceDeliver == Consume("Deliver") /\ UNCHANGED pend /\ Deliver(ev.e, [dir |-> ev.dir, ctr |-> ev.ctr])
                 /\ last'.res = ev.res /\ StateMatches
-TraceForge   == Consume("Forge") /\ Forge(ev.e, ev.dir, ev.ctr, ev.kind)
+TraceForge   == Consume("Forge") /\ UNCHANGED pend /\ Forge(ev.e, ev.dir, ev.ctr, ev.kind)
                 /\ last'.res = ev.res /\ StateMatches
-TraceReset   == Consume("Reset")
+TraceReset   == Consume("Reset") /\ pend' = {}
                 /\ send' = [e \in End |-> 0] /\ recv' = [e \in End |-> 0] /\ wire' = {}
                 /\ nsealed' = [e \in End |-> 0] /\ accepted' = [e \in End |-> <<>>]
                 /\ last' = [act |-> "Init"]
 
-TraceNext == TraceEncrypt \/ TraceSeal \/ TraceDeliver \/ TraceForge \/ TraceReset
-TraceSpec == TraceInit /\ [][TraceNext]_<<vars, l>>
+(* Concurrent Decrypt calls (several goroutines on one SessionKey): the call and the return are logged   *)
+(* (global sequence taken before the call and after the return); the linearisation point is an internal  *)
+(* step (Lin) somewhere in between, at which the spec's atomic Deliver takes effect.  The Call event      *)
+(* carries the result the call eventually returned (the harness writes the trace after the run), so Lin  *)
+(* only explores linearisations consistent with the observed results.                                    *)
+TraceCall == Consume("Call") /\ UNCHANGED vars
+             /\ pend' = pend \cup {[id |-> ev.id, e |-> ev.e, dir |-> ev.dir, ctr |-> ev.ctr, want |-> ev.res, done |-> FALSE]}
+Lin       == \E p \in pend :
+                /\ ~p.done
+                /\ Deliver(p.e, [dir |-> p.dir, ctr |-> p.ctr])
+                /\ last'.res = p.want
+                /\ pend' = (pend \ {p}) \cup {[p EXCEPT !.done = TRUE]}
+                /\ UNCHANGED l
+TraceRet  == Consume("Ret") /\ UNCHANGED vars
+             /\ \E p \in pend : p.id = ev.id /\ p.done /\ pend' = pend \ {p}
+
+TraceNext == TraceEncrypt \/ TraceSeal \/ TraceDeliver \/ TraceForge \/ TraceReset \/ TraceCall \/ Lin \/ TraceRet
+TraceSpec == TraceInit /\ [][TraceNext]_<<vars, l, pend>>
 
 HighWater == TLCSet(1, IF l > TLCGet(1) THEN l ELSE TLCGet(1))
 TraceAccepted == /\ PrintT("HW " \o ToString(TLCGet(1)))
